@@ -92,7 +92,7 @@ def run(ctx, rep):
         kb = ctx.body(d_)
         for c in kb.calls:
             if c.name.split('::')[-1] in ('unwrap_or_else', 'unwrap_or', 'or', 'or_else') and is_user_call(c):
-                inner.add(canon(kb.pexpr_operand(c.args[0]), 0, 2))
+                inner.add(canon(kb.pexpr_operand(c.args[0], 0, frozenset(), (c.bb, "t")), 0, 2))
     oki = inner == {'self.partitioning'}
     rep.ob('R20.a', PR + '::get_partitioning', 'then the configured partitioning, then the default', oki, None, None if oki else 'the fallback chain inside the closure starts from %s' % sorted(inner))
 
@@ -172,9 +172,9 @@ def run(ctx, rep):
     stores = []
     for c in pb.calls:
         if is_user_call(c) and c.name.endswith('Atomic::store') and len(c.args) >= 2:
-            recv = canon(pb.pexpr_operand(c.args[0]), 0, 3)
+            recv = canon(pb.pexpr_operand(c.args[0], 0, frozenset(), (c.bb, "t")), 0, 3)
             if 'last_consumed_offsets' in recv:
-                stores.append((c, recv, canon(pb.pexpr_operand(c.args[1]), 0, 3)))
+                stores.append((c, recv, canon(pb.pexpr_operand(c.args[1], 0, frozenset(), (c.bb, "t")), 0, 3)))
     rep.ob('R20.d', POLL_NEXT, 'consumed offset recorded at both yield sites', len(stores) == 2, stores[0][0].where() if stores else None, '%d stores into last_consumed_offsets' % len(stores))
     for c, recv, val in stores:
         ok = val.endswith('.offset') and ('pop_front' in val or 'Vec::remove' in val)
@@ -182,9 +182,86 @@ def run(ctx, rep):
     # after a successful commit the stored offset is the committed one
     sb = ctx.fn_body(CO + '::store_consumer_offset')
     cs = [c for c in sb.calls if c.name.split('::')[-1] == 'store_consumer_offset' and c.name != CO + '::store_consumer_offset']
-    st = [c for c in sb.calls if is_user_call(c) and c.name.endswith('Atomic::store') and canon(sb.pexpr_operand(c.args[1]), 0, 1) == 'offset']
+    st = [c for c in sb.calls if is_user_call(c) and c.name.endswith('Atomic::store') and canon(sb.pexpr_operand(c.args[1], 0, frozenset(), (c.bb, "t")), 0, 1) == 'offset']
     if not cs or not st:
         rep.anchor_lost('R20.d', 'client.store_consumer_offset / last_stored.store(offset) in IggyConsumer::store_consumer_offset')
     else:
         ok = all(success_dominates(sb, cs[0], x.bb) for x in st)
         rep.ob('R20.d', CO + '::store_consumer_offset', 'last stored := committed offset, only after the commit succeeded', ok, st[0].where(), None if ok else 'last_stored_offsets is advanced without a successful commit')
+
+    # ------------------------------------------------------------ R20.e the commit mode a consumer runs in is the one it was built with
+    rep.rule('R20.e', 'the commit-mode flags follow the AutoCommit value: poll-commit ⇔ PollingMessages, commit-per-message ⇔ ConsumingEachMessage, commit-after-batch ⇔ ConsumingAllMessages, every n-th ⇔ ConsumingEveryNthMessage(n), for When(..) and IntervalOrWhen(_, ..) alike (and the After(..) variants in consume_messages)', floor=6, analysis='A5 variant ↔ flag')
+    def flag_sources(fn, adt_self, flags):
+        fb = ctx.fn_body(fn)
+        out = {}
+        def entering(blk):
+            res = set()
+            seenp = set()
+            work = [(p_, blk) for p_ in fb.pred(blk) if p_ in fb.reach]
+            while work:
+                p_, tgt = work.pop()
+                if (p_, tgt) in seenp:
+                    continue
+                seenp.add((p_, tgt))
+                t_ = fb.term(p_)
+                if t_.get('t') == 'switch':
+                    vals, is_else = fb.edge_value(p_, tgt)
+                    e_ = canon(fb.pexpr_operand(t_['op']), 0, 3)
+                    for v_ in vals:
+                        res.add((e_, v_))
+                    if is_else and not vals:
+                        res.add((e_, 'else'))
+                elif t_.get('t') == 'goto' and not fb.stmts(p_):
+                    work.extend((q_, p_) for q_ in fb.pred(p_) if q_ in fb.reach)
+                else:
+                    res.add(('?', p_))
+            return res
+        return fb, entering
+    WHEN = {n_: i_ for i_, n_ in enumerate([v['name'] for v in ctx.facts.adts['iggy::clients::consumer::AutoCommitWhen']['variants']])}
+    AFTER = {n_: i_ for i_, n_ in enumerate([v['name'] for v in ctx.facts.adts['iggy::clients::consumer::AutoCommitAfter']['variants']])}
+    nb, entering = flag_sources(CO + '::new', CO, None)
+    agg = None
+    for blk in sorted(nb.reach):
+        for st in nb.stmts(blk):
+            rv = st.get('rv') or {}
+            if rv.get('r') == 'agg' and rv.get('adt') == CO:
+                agg = rv
+    if agg is None:
+        rep.anchor_lost('R20.e', 'IggyConsumer aggregate in IggyConsumer::new')
+    else:
+        want = {'auto_commit_after_polling': 'PollingMessages', 'store_offset_after_each_message': 'ConsumingEachMessage', 'store_offset_after_all_messages': 'ConsumingAllMessages'}
+        for n_, o_ in zip(agg['names'], agg['ops']):
+            if n_ not in want:
+                continue
+            l_ = (o_.get('m') or o_.get('c'))[0]
+            srcs = set()
+            for (db, di, whole) in nb.defs.get(l_, []):
+                if di != 't' and whole and canon(nb._pexpr_rvalue(nb.stmts(db)[di]['rv'], 0, frozenset(), (db, di)), 0, 1) in ('1', 'true'):
+                    srcs |= entering(db)
+            k = WHEN[want[n_]]
+            exp = {('discr((auto_commit as When).0)', k), ('discr((auto_commit as IntervalOrWhen).1)', k)}
+            ok = srcs == exp
+            rep.ob('R20.e', CO + '::new', '%s ⇔ %s' % (n_, want[n_]), ok, None, 'set on When(%s) | IntervalOrWhen(_, %s)' % (want[n_], want[n_]) if ok else
+                   'flag `%s` is set on %s (expected the %s variant under When and IntervalOrWhen): the consumer commits in another mode than the one it was configured for' % (n_, sorted(srcs, key=str), want[n_]))
+        for n_, o_ in zip(agg['names'], agg['ops']):
+            if n_ == 'store_after_every_nth_message':
+                f_ = canon(nb.pexpr_operand(o_), 0, 3)
+                ok = 'as ConsumingEveryNthMessage).0' in f_ and '(auto_commit as When)' in f_ and '(auto_commit as IntervalOrWhen)' in f_
+                rep.ob('R20.e', CO + '::new', 'every n-th ⇔ ConsumingEveryNthMessage(n)', ok, None, f_[:120])
+    # the After(..) variants in consume_messages: the three locals are selected by the like-named AutoCommitAfter variants
+    eb2, entering2 = flag_sources(EXT, None, None)
+    want2 = {'store_offset_after_each_message': 'ConsumingEachMessage', 'store_offset_after_all_messages': 'ConsumingAllMessages'}
+    found2 = 0
+    for l_, name_ in eb2.varname.items():
+        if name_ in want2:
+            srcs = set()
+            for (db, di, whole) in eb2.defs.get(l_, []):
+                if di != 't' and whole and canon(eb2._pexpr_rvalue(eb2.stmts(db)[di]['rv'], 0, frozenset(), (db, di)), 0, 1) in ('1', 'true'):
+                    srcs |= entering2(db)
+            if not srcs:
+                continue
+            found2 += 1
+            k = AFTER[want2[name_]]
+            ok = {v_ for _, v_ in srcs} == {k} and all('After' in e_ for e_, _ in srcs) and len(srcs) == 2
+            rep.ob('R20.e', EXT, '%s ⇔ After(%s)' % (name_, want2[name_]), ok, None, None if ok else 'local `%s` is set on %s (expected the %s variant under After and IntervalOrAfter)' % (name_, sorted(srcs, key=str), want2[name_]))
+    rep.ob('R20.e', EXT, 'After-mode flags found', found2 == 2, None, '%d flags' % found2)
